@@ -272,12 +272,18 @@ package cose
 //@ spec ProtBytes(h Headers) Bytes = len(h.RawProtected) > 0 ? bytes(h.RawProtected) : enc(cv_bstr(protContent(h.Protected)))
 //@ spec UnprotBytes(h Headers) Bytes = len(h.RawUnprotected) > 0 ? bytes(h.RawUnprotected) : (len(h.Unprotected) == 0 ? byte1(160) : enc(cvof(asmap(h.Unprotected))))
 
+// when the encoders of the two buckets succeed (state predicates used by the completeness clauses and lemmas)
+//@ spec protMapOK(h ProtectedHeader) Bool = len(h) == 0 || (Rules(h, true) && enc_ok(cvof(asmap(h))))
+//@ spec unprotMapOK(h UnprotectedHeader) Bool = len(h) == 0 || (Rules(h, false) && enc_ok(cvof(asmap(h))))
+
 //@ func (ProtectedHeader).MarshalCBOR
+//@   ensures err_iff [C01, C07, C08]: err == nil <==> old(protMapOK(h))
 //@   ensures fun [C02, C04, C08, C09, C10, C13]: err == nil ==> bytes(result) == enc(cv_bstr(protContent(h))) && fresh(result) && len(result) > 0
 //@   ensures err_nil: err != nil ==> result == nil
 //@   modifies frame [C13, C18]: nothing
 
 //@ func (UnprotectedHeader).MarshalCBOR
+//@   ensures err_iff [C01, C07, C08]: err == nil <==> old(unprotMapOK(h))
 //@   ensures fun [C08, C09, C13]: err == nil ==> bytes(result) == (len(h) == 0 ? byte1(160) : enc(cvof(asmap(h)))) && fresh(result) && len(result) > 0
 //@   ensures err_nil: err != nil ==> result == nil
 //@   modifies frame [C13, C18]: nothing
